@@ -323,7 +323,7 @@ def fact_body_standardRenderer_flush : List String := [
     "{ r.mtx.Lock() defer r.mtx.Unlock() r.render() }"]
 
 def fact_body_standardRenderer_halt : List String := [
-    "{ r.listenMtx.Lock() defer r.listenMtx.Unlock() if !r.listening { return } r.done <- struct{}{} r.listening = false }"]
+    "{ r.listenMtx.Lock() defer r.listenMtx.Unlock() if !r.listening { return } r.done <- struct{}{} r.ticker.Stop() r.listening = false }"]
 
 def fact_body_standardRenderer_handleMessages : List String := [
     "{ switch v1 := a1.(type) { case repaintMsg: r.mtx.Lock() r.repaint() r.mtx.Unlock() case WindowSizeMsg: r.mtx.Lock() r.width = v1.Width r.height = v1.Height r.repaint() r.mtx.Unlock() case clearScrollAreaMsg: r.clearIgnoredLines() r.mtx.Lock() r.repaint() r.mtx.Unlock() case syncScrollAreaMsg: r.clearIgnoredLines() r.setIgnoredLines(v1.topBoundary, v1.bottomBoundary) r.insertTop(v1.lines, v1.topBoundary, v1.bottomBoundary) r.mtx.Lock() r.repaint() r.mtx.Unlock() case scrollUpMsg: r.insertTop(v1.lines, v1.topBoundary, v1.bottomBoundary) case scrollDownMsg: r.insertBottom(v1.lines, v1.topBoundary, v1.bottomBoundary) case printLineMessage: if !r.altScreenActive { v2 := strings.Split(v1.messageBody, \"\\n\") r.mtx.Lock() r.queuedMessageLines = append(r.queuedMessageLines, v2...) r.repaint() r.mtx.Unlock() } } }"]
@@ -335,7 +335,7 @@ def fact_body_standardRenderer_lastLinesRendered : List String := [
     "{ if r.altScreenActive { return r.altLinesRendered } return r.linesRendered }"]
 
 def fact_body_standardRenderer_listen : List String := [
-    "{ for { select { case <-r.done: r.ticker.Stop() return case <-r.ticker.C: r.flush() } } }"]
+    "{ for { select { case <-r.done: verifPause(\"listen: stop received\") return case <-r.ticker.C: r.flush() } } }"]
 
 def fact_body_standardRenderer_render : List String := [
     "{ if r.buf.Len() == 0 || r.buf.String() == r.lastRender { return } v1 := &bytes.Buffer{} if r.altScreenActive { v1.WriteString(ansi.CursorHomePosition) } else if r.linesRendered > 1 { v1.WriteString(ansi.CursorUp(r.linesRendered - 1)) } v2 := strings.Split(r.buf.String(), \"\\n\") if r.height > 0 && len(v2) > r.height { v2 = v2[len(v2)-r.height:] } v3 := len(r.queuedMessageLines) > 0 && !r.altScreenActive if v3 { for _, v4 := range r.queuedMessageLines { if v5 := ansi.StringWidth(v4); r.width > 0 && (v5 == 0 || v5%r.width != 0) { v4 = v4 + ansi.EraseLineRight } _, _ = v1.WriteString(v4) _, _ = v1.WriteString(\"\\r\\n\") } r.queuedMessageLines = []string{} } v6 := r.lastLinesRendered() > len(v2) v7 := false for v8 := 0; v8 < len(v2); v8++ { v9 := v6 && v8 == len(v2)-1 v10 := !v3 && !v9 && len(r.lastRenderedLines) > v8 && r.lastRenderedLines[v8] == v2[v8] if _, v11 := r.ignoreLines[v8]; v11 || v10 { if v8 < len(v2)-1 { v1.WriteByte('\\n') } continue } if v8 == 0 && r.lastRender == \"\" { v1.WriteByte('\\r') } if v9 { v1.WriteString(ansi.EraseScreenBelow) v7 = true } v12 := v2[v8] if r.width > 0 { v12 = ansi.Truncate(v12, r.width, \"\") } if ansi.StringWidth(v12) < r.width { v12 = v12 + ansi.EraseLineRight } _, _ = v1.WriteString(v12) if v8 < len(v2)-1 { _, _ = v1.WriteString(\"\\r\\n\") } } if v6 && !v7 { v1.WriteString(ansi.EraseScreenBelow) } if r.altScreenActive { r.altLinesRendered = len(v2) } else { r.linesRendered = len(v2) } if r.altScreenActive { v1.WriteString(ansi.CursorPosition(0, len(v2))) } else { v1.WriteString(ansi.CursorBackward(r.width)) } _, _ = r.out.Write(v1.Bytes()) r.lastRender = r.buf.String() r.lastRenderedLines = v2 r.buf.Reset() }"]
@@ -707,7 +707,7 @@ def fact_order_standardRenderer_kill : List String := [
     "r.repaint"]
 
 def fact_order_standardRenderer_listen : List String := [
-    "r.ticker.Stop",
+    "verifPause",
     "r.flush"]
 
 def fact_order_standardRenderer_start : List String := [
